@@ -52,14 +52,17 @@ def _install_randn():
     onp.random.randn = sym_randn
 
 
-def _concrete_runs(check_grads, fun, modes, order, npr):
+def _concrete_runs(check_grads, fun, modes, order, npr, array_arg=False):
     acc = 0
     for trial in range(40):
         npr.seed(1000 + trial)
         try:
             with warnings.catch_warnings():
                 warnings.simplefilter("ignore")
-                check_grads(fun, modes=list(modes), order=order)(float(npr.uniform(0.3, 2.0)) * (1 if trial % 2 else -1))
+                arg = float(npr.uniform(0.3, 2.0)) * (1 if trial % 2 else -1)
+                if array_arg:
+                    arg = onp.array([arg, float(npr.uniform(0.3, 2.0))])
+                check_grads(fun, modes=list(modes), order=order)(arg)
             acc += 1
         except AssertionError:
             pass
@@ -97,12 +100,17 @@ def prims():
                 return -(base + g[::-1])
             if defect == "entry":
                 return base + g[::-1] + g * onp.array([0.0, 1e-2]) * x
+            if defect == "nan-entry":
+                return base + g[::-1] + g * onp.array([0.0, float("nan")])
+            if defect == "inf-entry":
+                return base + g[::-1] + g * onp.array([float("inf"), 0.0])
             return base + g[::-1]
 
         defvjp(foo, lambda ans, x: lambda g: rule(g, x))
         defjvp(foo, lambda g, ans, x: rule(g, x))  # the Jacobian of this map is symmetric-free: jvp uses the transpose-consistent form below
         defjvp(foo, lambda g, ans, x: (g * 2.0 * x * onp.array([1.0, 2.0]) * ((1.0 + 1e-3) if defect == "factor" else 1.0) + g[::-1]) * (-1.0 if defect == "sign" else 1.0)
-               + (g * onp.array([0.0, 1e-2]) * x if defect == "entry" else 0.0))
+               + (g * onp.array([0.0, 1e-2]) * x if defect == "entry" else 0.0)
+               + (g * onp.array([0.0, float("nan")]) if defect == "nan-entry" else 0.0) + (g * onp.array([float("inf"), 0.0]) if defect == "inf-entry" else 0.0))
         return foo
 
     def matvec(defect):
@@ -223,6 +231,10 @@ def items(tier):
                 out.append((lab, "order2-only", ("rev",), 2))
                 out.append((lab, "order2-only", ("fwd",), 2))
                 out.append((lab, "none", ("fwd",), 2))
+    # rules that return a non-finite entry where the true derivative is finite (the comparison itself must not let nan / inf pass)
+    for d_ in ("nan-entry", "inf-entry"):
+        for modes in (("rev",), ("fwd",)):
+            out.append(("array quadratic (2,)", d_, modes, 1))
     out.append(("reverse rule through a helper primitive", "none", ("fwd", "rev"), 2))
     out.append(("reverse rule through a helper primitive", "fwdhelper", ("fwd", "rev"), 2))
     # the checked argument selected through check_grads' argnum (it is a unary_to_nary operator): positive, negative, tuples
@@ -273,7 +285,7 @@ def check(it, tier):
     else:
         fun = mk(defect)
 
-    if lab.startswith("reverse rule through a helper") and order == 2 and len(modes) == 2:
+    if (lab.startswith("reverse rule through a helper") and order == 2 and len(modes) == 2) or defect in ("nan-entry", "inf-entry"):
         # order 2 with both modes forks into too many comparison paths for the symbolic executor (time limit): this one
         # configuration is decided on 40 concrete float64 draws of the real check_grads instead (labelled as such)
         import numpy.random as npr
@@ -282,7 +294,7 @@ def check(it, tier):
         if getattr(patched, "_vf", False):
             npr.randn = onp.random.randn = patched._real  # real draws for this item
         try:
-            acc = _concrete_runs(check_grads, fun, modes, order, npr)
+            acc = _concrete_runs(check_grads, fun, modes, order, npr, array_arg=defect in ("nan-entry", "inf-entry"))
         finally:
             npr.randn = onp.random.randn = patched
         for trial in range(0):
@@ -301,7 +313,7 @@ def check(it, tier):
             out.detail = "" if acc == 40 else "check_grads rejected a CORRECT rule in %d of 40 concrete runs" % (40 - acc)
         else:
             out.status = "holds" if acc == 0 else "violation"
-            out.detail = "" if acc == 0 else "check_grads(modes=['fwd','rev'], order=2) accepted a rule whose forward-over-reverse derivative is wrong in %d of 40 concrete runs" % acc
+            out.detail = "" if acc == 0 else "check_grads(modes=%r, order=%d) accepted the planted defect '%s' in %d of 40 concrete runs" % (list(modes), order, defect, acc)
         if out.status == "violation":
             out.cex = {"env": {}, "mode": "check_grads"}
         else:
